@@ -60,6 +60,10 @@ class C18:
                 q = b""
             elif r < 0.5:
                 q = b"?"
+            elif r < 0.65:
+                # keys and values that contain the client's own parameter names
+                q = rng.choice([b"?transport=tcp", b"?cleft=1", b"?xport=9&yleft=2", b"?myinfo_hash=zz", b"?k=port=1", b"?apeer_id=q",
+                                b"?compact=1&support=no", b"?v=left=3&downloaded=7", b"?uploaded=1", b"?passkey=abc&transport=udp"])
             else:
                 val = lambda: word() + (rng.choice([b"", b"", b"/", b"/x", b"~", b":8", b"@h"]))
                 q = b"?" + b"&".join(word() + b"=" + val() for _ in range(rng.choice([1, 1, 2, 3])))
